@@ -162,4 +162,44 @@ theorem adjacent_concat (v : List Nat) (vs : List (List Nat)) (rest : List PTok)
 example : primaryString [.string [97], .string [98, 99], .other .operator ['+'], .string [100]] =
     some ([97, 98, 99], [.other .operator ['+'], .string [100]]) := by decide
 
+
+-- integers ------------------------------------------------------------------------------------------------------
+
+open JinjaV.Spec.PyLit (Derives integerValue pyInteger?) in
+/-- Whatever text `integer_re` (as modelled by `matchInt`) matches at any position is a Python `integer` literal
+    by the reference grammar, `int(text.replace("_", ""), 0)` succeeds on it (no ValueError branch), and the result is
+    the value the reference assigns to the spelling *with* its underscores.  The last clause restates it with the
+    executable reference the driver runs. -/
+theorem int_token_python (s m r : Str) (h : matchInt s = some (m, r)) :
+    Derives JinjaV.Spec.PyLit.integer m ∧ intValue m = some (integerValue m) ∧ pyInteger? m = intValue m := by
+  have key : Derives JinjaV.Spec.PyLit.integer m ∧ intValue m = some (integerValue m) := by
+    unfold matchInt at h
+    split at h
+    · rename_i mm hb
+      cases h
+      have := prefInt_python 'b' 'B' 2 isBin JinjaV.Spec.PyLit.isBinC s m r (Or.inl ⟨rfl, rfl, rfl⟩)
+        (fun _ h => h) good_isBin (by decide) hb
+      exact ⟨.altR (.altL this.1), this.2⟩
+    · split at h
+      · rename_i mm ho
+        cases h
+        have := prefInt_python 'o' 'O' 8 isOct JinjaV.Spec.PyLit.isOctC s m r (Or.inr (Or.inl ⟨rfl, rfl, rfl⟩))
+          (fun _ h => h) good_isOct (by decide) ho
+        exact ⟨.altR (.altR (.altL this.1)), this.2⟩
+      · split at h
+        · rename_i mm hx
+          cases h
+          have := prefInt_python 'x' 'X' 16 Lex.isHex JinjaV.Spec.PyLit.isHexC s m r (Or.inr (Or.inr ⟨rfl, rfl, rfl⟩))
+            isHexC_of_isHex good_isHex (by decide) hx
+          exact ⟨.altR (.altR (.altR this.1)), this.2⟩
+        · have := decInt_python s m r h
+          exact ⟨.altL this.1, this.2⟩
+  refine ⟨key.1, key.2, ?_⟩
+  have hacc : JinjaV.Spec.PyLit.integer.accepts m = true := (JinjaV.Spec.PyLit.accepts_iff _ _).2 key.1
+  simp only [pyInteger?, hacc, if_true, key.2]
+
+example : matchInt "0x_fF+1".toList = some ("0x_fF".toList, "+1".toList) ∧ intValue "0x_fF".toList = some 255 ∧
+    matchInt "1_000_".toList = some ("1_000".toList, "_".toList) ∧ matchInt "0_7".toList = some ("0".toList, "_7".toList) := by
+  decide
+
 end JinjaV.C14
